@@ -73,6 +73,7 @@ class Path:
         self.decider = decider    # optional callable(cond) -> True/False/None/(bool, bool)
         self.log = []             # free-form notes (stub calls, obligations)
         self.obligations = []     # (name, payload) emitted on the way
+        self.after = None         # optional callable(cond, decision) run after each decision
 
     def decide(self, cond):
         i = len(self.decisions)
@@ -96,6 +97,8 @@ class Path:
         self.decisions.append(d)
         self.conds.append((cond, d))
         self.forkable.append(other)
+        if self.after is not None:
+            self.after(cond, d)
         return d
 
 
